@@ -14,12 +14,14 @@ var opKinds = []string{
 	"throw",
 	"sub", "sub",
 	"fee", "fee", "fee", "fee", "block", "block", "unblock", "gas", "gas", "gas", "deploy", "deploy", "calltiny",
-	"fatal",
+	"put", "put", "put", "del", "notify", "read", "read", "call", "call", "call", "call", "try", "try", "try", "try", "fee", "gas", "deploy", "unblock",
+	"put", "put", "put", "del", "notify", "read", "read", "call", "call", "call", "call", "try", "try", "try", "try", "fee", "gas", "block", "sub",
 }
 
 // Selector alphabets: the B selector of `call` mostly picks CallFlags.All, the B selector of `fee` mostly a valid value.
 var (
-	callFlagSel = []int{0, 0, 0, 0, 0, 0, 0, 0, 0, 5, 6, 7}
+	callFlagSel = []int{0, 0, 0, 0, 0, 0, 0, 0, 0, 0, 0, 0, 0, 0, 0, 0, 0, 0, 0, 0, 0, 0, 0, 0, 0, 0, 0, 0, 0, 0, 0, 0, 0, 0, 0, 0, 0, 5, 6, 7}
+	blockSel    = []int{0, 1, 0, 1, 0, 1, 2, 3, 4} // mostly the plain accounts, sometimes a generated contract (calls to it then fail)
 	feeSel      = []int{0, 1, 2, 0, 1, 2, 0, 1, 2, 0, 1, 3}
 )
 
@@ -28,20 +30,22 @@ func genOp(t *rapid.T, depth int) Op {
 	if depth >= 3 && (k == "try" || k == "sub") {
 		k = "put"
 	}
-	if k == "fatal" {
-		k = rapid.SampledFrom([]string{"abort", "burn"}).Draw(t, "fatal")
-	}
 	o := Op{K: k, A: rapid.IntRange(0, 7).Draw(t, "a"), B: rapid.IntRange(0, 7).Draw(t, "b")}
 	switch k {
 	case "call":
 		o.B = rapid.SampledFrom(callFlagSel).Draw(t, "flags")
 	case "fee":
 		o.B = rapid.SampledFrom(feeSel).Draw(t, "fee")
+	case "block", "unblock":
+		o.A = rapid.SampledFrom(blockSel).Draw(t, "blk")
 	case "try":
-		o.Body = genOps(t, 0, 2, depth+1, 25)
+		o.Body = genOps(t, 0, 2, depth+1, 35)
 		// A try block is only interesting with something that can fail inside.
 		if rapid.IntRange(0, 9).Draw(t, "guard") < 8 {
 			c := Op{K: "call", A: rapid.IntRange(0, 7).Draw(t, "ga"), B: rapid.SampledFrom(callFlagSel).Draw(t, "gflags")}
+			if rapid.IntRange(0, 4).Draw(t, "gsub") == 0 {
+				c = Op{K: "sub", Body: []Op{c}}
+			}
 			at := rapid.IntRange(0, len(o.Body)).Draw(t, "gat")
 			o.Body = append(o.Body[:at:at], append([]Op{c}, o.Body[at:]...)...)
 		}
@@ -72,20 +76,196 @@ func genOps(t *rapid.T, lo, hi, depth, throwPct int) []Op {
 	for i := 0; i < n; i++ {
 		ops = append(ops, genOp(t, depth))
 	}
-	if rapid.IntRange(0, 99).Draw(t, "throw") < throwPct {
+	if rapid.IntRange(0, 99).Draw(t, "throw") >= 100-throwPct {
 		ops = append(ops, Op{K: "throw"})
 	}
 	return ops
 }
 
+var effectKinds = []string{"put", "put", "put", "del", "notify", "notify", "read", "read", "fee", "fee", "block", "unblock", "gas", "gas", "deploy"}
+
+func genEffects(t *rapid.T, lo, hi int) []Op {
+	n := rapid.IntRange(lo, hi).Draw(t, "neff")
+	var ops []Op
+	for i := 0; i < n; i++ {
+		o := Op{K: rapid.SampledFrom(effectKinds).Draw(t, "ek"), A: rapid.IntRange(0, 7).Draw(t, "a"), B: rapid.IntRange(0, 7).Draw(t, "b")}
+		switch o.K {
+		case "fee":
+			o.B = rapid.SampledFrom(feeSel).Draw(t, "fee")
+		case "block", "unblock":
+			o.A = rapid.SampledFrom(blockSel).Draw(t, "blk")
+		}
+		ops = append(ops, o)
+	}
+	return ops
+}
+
+// genChain draws a program aimed at the core of the property: a chain of calls entry -> c0.m0 -> c1.m0 -> ... of depth
+// 2..4, state changes at every level before and after the call, a throw (sometimes an uncatchable failure, sometimes
+// nothing) at the bottom, and try blocks at drawn levels.
+func genChain(t *rapid.T) Program {
+	depth := rapid.IntRange(2, 4).Draw(t, "depth")
+	nc := min(depth, 3)
+	p := Program{Contracts: make([]Contract, nc)}
+	for c := range p.Contracts {
+		p.Contracts[c].Fund = rapid.IntRange(0, 2).Draw(t, "fund")
+		p.Contracts[c].Seed = rapid.SliceOfN(rapid.IntRange(0, 2), 0, 2).Draw(t, "seed")
+	}
+	// In a tenth of the chains one call passes ReadOnly|AllowNotify and everything below it only notifies / reads
+	// (a callee without WriteStates that writes simply faults): notifications of a failed read-only callee.
+	roFrom := depth
+	if rapid.IntRange(0, 9).Draw(t, "ro_mode") == 9 {
+		roFrom = rapid.IntRange(1, depth-1).Draw(t, "ro_from")
+	}
+	effects := func(lvl, lo, hi int) []Op {
+		ops := genEffects(t, lo, hi)
+		if lvl >= roFrom {
+			for i := range ops {
+				if ops[i].K != "read" {
+					ops[i].K = "notify"
+				}
+			}
+		}
+		return ops
+	}
+	for lvl := 0; lvl < depth; lvl++ {
+		var body []Op
+		if lvl == depth-1 {
+			body = effects(lvl, 1, 3)
+			switch rapid.IntRange(0, 9).Draw(t, "bottom") {
+			case 0:
+			case 1:
+				body = append(body, Op{K: rapid.SampledFrom([]string{"abort", "burn"}).Draw(t, "fatal")})
+			case 2:
+				body = append(body, Op{K: "try", HasF: true, Body: []Op{{K: "throw"}}, Fin: effects(lvl, 0, 2)})
+			default:
+				body = append(body, Op{K: "throw"})
+			}
+		} else {
+			call := Op{K: "call", A: 0, B: rapid.SampledFrom(callFlagSel).Draw(t, "flags")} // selector 0 = next routine in the global order
+			if lvl+1 == roFrom {
+				call.B = 5
+			}
+			body = effects(lvl, 0, 2)
+			if rapid.IntRange(0, 9).Draw(t, "guard") < 4 {
+				inner := call
+				if rapid.IntRange(0, 3).Draw(t, "guarded_sub") == 0 {
+					// The call is made from an internal subroutine: the try block lives in another context of the same contract.
+					inner = Op{K: "sub", Body: append(effects(lvl, 0, 1), call)}
+				}
+				tr := Op{K: "try", Body: append(append(effects(lvl, 0, 1), inner), effects(lvl, 0, 1)...)}
+				switch rapid.IntRange(0, 5).Draw(t, "shape") {
+				case 0:
+					tr.HasF = true
+				case 1, 2:
+					tr.HasC, tr.HasF = true, true
+				default:
+					tr.HasC = true
+				}
+				if tr.HasC {
+					tr.Catch = genOps(t, 0, 2, 1, 8)
+				}
+				if tr.HasF {
+					tr.Fin = genOps(t, 0, 2, 1, 8)
+				}
+				if lvl >= roFrom {
+					tr.Catch, tr.Fin = effects(lvl, 0, 2), effects(lvl, 0, 2)
+				}
+				body = append(body, tr)
+			} else if rapid.IntRange(0, 5).Draw(t, "viasub") == 0 {
+				body = append(body, Op{K: "sub", Body: []Op{call}})
+			} else {
+				body = append(body, call)
+			}
+			body = append(body, effects(lvl, 0, 2)...)
+		}
+		c := lvl % nc
+		p.Contracts[c].Methods = append(p.Contracts[c].Methods, Method{Ops: body})
+	}
+	entry := []Op{{K: "call", A: 0, B: rapid.SampledFrom(callFlagSel).Draw(t, "eflags")}}
+	if rapid.IntRange(0, 9).Draw(t, "eguard") < 7 {
+		entry = []Op{{K: "try", HasC: true, Body: entry}}
+	}
+	p.Entry = entry
+	return p
+}
+
+// genHandlerStates draws programs in which calls are made while the caller's exception handler is NOT in its TRY state:
+// from a CATCH block that has a FINALLY block (the finally block can observe what a failed callee left behind) and from
+// a FINALLY block entered by an exception (the callee completes while that exception is pending).
+func genHandlerStates(t *rapid.T) Program {
+	nat := func(label string) Op { // an effect on natively cached state and the op that observes it
+		j := rapid.IntRange(0, 1).Draw(t, label+"_j")
+		switch rapid.IntRange(0, 4).Draw(t, label) {
+		case 0, 1:
+			return Op{K: "deploy", A: j}
+		case 2:
+			return Op{K: "block", A: 2 + rapid.IntRange(0, 2).Draw(t, label+"_c")}
+		case 3:
+			return Op{K: "fee", B: rapid.IntRange(0, 2).Draw(t, label+"_v")}
+		default:
+			return Op{K: "put", A: j, B: 1}
+		}
+	}
+	probe := func(label string) Op {
+		j := rapid.IntRange(0, 1).Draw(t, label+"_j")
+		switch rapid.IntRange(0, 4).Draw(t, label) {
+		case 0, 1:
+			return Op{K: "deploy", A: j}
+		case 2:
+			return Op{K: "calltiny", A: j}
+		case 3:
+			return Op{K: "call", A: rapid.IntRange(0, 2).Draw(t, label+"_c")}
+		default:
+			return Op{K: "read", A: j}
+		}
+	}
+	p := Program{Contracts: make([]Contract, 3)}
+	for c := range p.Contracts {
+		p.Contracts[c].Fund = rapid.IntRange(0, 2).Draw(t, "fund")
+	}
+	calleeThrows := rapid.IntRange(0, 9).Draw(t, "callee_throws") < 8
+	callee := append(genEffects(t, 0, 1), nat("nat"))
+	callee = append(callee, genEffects(t, 0, 1)...)
+	if calleeThrows {
+		callee = append(callee, Op{K: "throw"})
+	}
+	p.Contracts[1].Methods = []Method{{Ops: callee}}
+	p.Contracts[2].Methods = []Method{{Ops: genEffects(t, 1, 2)}}
+	call := Op{K: "call", A: 0}
+	var a []Op
+	a = append(a, genEffects(t, 0, 2)...)
+	switch rapid.IntRange(0, 2).Draw(t, "hs_kind") {
+	case 0: // call from a catch block that has a finally block
+		a = append(a, Op{K: "try", HasC: true, HasF: true, Body: []Op{{K: "throw"}},
+			Catch: append(genEffects(t, 0, 1), call), Fin: append([]Op{probe("probe")}, genEffects(t, 0, 1)...)})
+	case 1: // call from a finally block entered by an exception, under an outer try
+		inner := Op{K: "try", HasF: true, Body: []Op{{K: "throw"}}, Fin: append(genEffects(t, 0, 1), call)}
+		a = append(a, Op{K: "try", HasC: true, Body: []Op{inner}, Catch: append(genEffects(t, 0, 1), probe("probe"))})
+	default: // native effect from a finally block entered by an exception, under an outer try
+		inner := Op{K: "try", HasF: true, Body: []Op{{K: "throw"}}, Fin: []Op{nat("nat2")}}
+		a = append(a, Op{K: "try", HasC: true, Body: []Op{inner}, Catch: append(genEffects(t, 0, 1), probe("probe"))})
+	}
+	a = append(a, genEffects(t, 0, 2)...)
+	p.Contracts[0].Methods = []Method{{Ops: a}}
+	p.Entry = []Op{{K: "try", HasC: true, Body: []Op{{K: "call", A: 0}}}}
+	return p
+}
+
 func genProgram(t *rapid.T) Program {
+	switch rapid.IntRange(0, 15).Draw(t, "program_shape") {
+	case 0, 1, 2, 3, 4, 5, 6:
+		return genChain(t)
+	case 14, 15:
+		return genHandlerStates(t)
+	}
 	var p Program
 	nc := rapid.IntRange(1, 3).Draw(t, "ncontracts")
 	for c := 0; c < nc; c++ {
 		ct := Contract{Fund: rapid.IntRange(0, 2).Draw(t, "fund")}
 		nm := rapid.IntRange(1, 3).Draw(t, "nmethods")
 		for m := 0; m < nm; m++ {
-			ct.Methods = append(ct.Methods, Method{Ops: genOps(t, 1, 5, 0, 15+20*m)})
+			ct.Methods = append(ct.Methods, Method{Ops: genOps(t, 1, 5, 0, 25+20*m)})
 		}
 		if rapid.IntRange(0, 2).Draw(t, "haspay") == 0 {
 			ct.Pay = genOps(t, 1, 3, 0, 10)
@@ -93,29 +273,64 @@ func genProgram(t *rapid.T) Program {
 		ct.Seed = rapid.SliceOfN(rapid.IntRange(0, 2), 0, 2).Draw(t, "seed")
 		p.Contracts = append(p.Contracts, ct)
 	}
+	// Uncatchable failures (ABORT, gas exhaustion) end the transaction whatever surrounds them: at most one per program,
+	// in 15 % of the programs, at a drawn place of the tree.
+	if rapid.IntRange(0, 99).Draw(t, "hasfatal") >= 88 {
+		var lists []*[]Op
+		var walk func(l *[]Op)
+		walk = func(l *[]Op) {
+			lists = append(lists, l)
+			for i := range *l {
+				o := &(*l)[i]
+				if o.K == "try" || o.K == "sub" {
+					walk(&o.Body)
+					if o.HasC {
+						walk(&o.Catch)
+					}
+					if o.HasF {
+						walk(&o.Fin)
+					}
+				}
+			}
+		}
+		for c := range p.Contracts {
+			for m := range p.Contracts[c].Methods {
+				walk(&p.Contracts[c].Methods[m].Ops)
+			}
+			if p.Contracts[c].Pay != nil {
+				walk(&p.Contracts[c].Pay)
+			}
+		}
+		l := lists[rapid.IntRange(0, len(lists)-1).Draw(t, "fatal_list")]
+		at := rapid.IntRange(0, len(*l)).Draw(t, "fatal_at")
+		f := Op{K: rapid.SampledFrom([]string{"abort", "burn"}).Draw(t, "fatal_kind")}
+		*l = append((*l)[:at:at], append([]Op{f}, (*l)[at:]...)...)
+	}
 	// Entry script: one or two calls, often under a try of its own, sometimes with native ops around.
 	call := func() Op {
 		return Op{K: "call", A: rapid.IntRange(0, 3).Draw(t, "ea"), B: rapid.SampledFrom(callFlagSel).Draw(t, "eb")}
 	}
 	extra := func() []Op {
-		if rapid.IntRange(0, 3).Draw(t, "eextra") != 0 {
+		if rapid.IntRange(0, 3).Draw(t, "eextra") != 3 {
 			return nil
 		}
-		k := rapid.SampledFrom([]string{"fee", "block", "unblock", "deploy", "calltiny", "call", "throw"}).Draw(t, "ek")
+		k := rapid.SampledFrom([]string{"fee", "block", "unblock", "deploy", "fee", "call", "throw"}).Draw(t, "ek")
 		o := Op{K: k, A: rapid.IntRange(0, 7).Draw(t, "xa"), B: rapid.IntRange(0, 7).Draw(t, "xb")}
 		if k == "fee" {
 			o.B = rapid.SampledFrom(feeSel).Draw(t, "xfee")
 		} else if k == "call" {
 			o.B = rapid.SampledFrom(callFlagSel).Draw(t, "xflags")
+		} else if k == "block" || k == "unblock" {
+			o.A = rapid.SampledFrom(blockSel).Draw(t, "xblk")
 		}
 		return []Op{o}
 	}
 	body := append(extra(), call())
 	body = append(body, extra()...)
 	switch rapid.IntRange(0, 7).Draw(t, "eshape") {
-	case 0:
+	case 7:
 		p.Entry = body
-	case 1, 2, 5, 6:
+	case 0, 1, 2, 5, 6:
 		p.Entry = append([]Op{{K: "try", HasC: true, Body: body, Catch: extra()}}, extra()...)
 	case 3:
 		p.Entry = append([]Op{{K: "try", HasC: true, Body: body}}, call())
@@ -151,7 +366,7 @@ func genCase(t *rapid.T) Case {
 		c.PreFee = rapid.Int64Range(0, 3000).Draw(t, "prefee_v")
 	}
 	if rapid.IntRange(0, 4).Draw(t, "preblock") == 0 {
-		c.PreBlock = rapid.IntRange(0, 4).Draw(t, "preblock_t")
+		c.PreBlock = rapid.SampledFrom(blockSel).Draw(t, "preblock_t")
 	}
 	return c
 }
